@@ -496,3 +496,10 @@ Lemma operator_shapes (T : Type) (O : NumOps T) (i j : nat) (q : T) :
   build O (Mul (Leaf i) (Leaf j)) = Err EValueError /\
   build O (Add (Leaf i) Junk) = Err ETypeError.
 Proof. repeat split; reflexivity. Qed.
+
+(* constant folding, stated without the (unused) batch hypotheses of Section Sem *)
+Theorem constant_expression_folds (e : oexpr R) (q : R) :
+  build ROps e = Ok (VScal q) -> forall env, evalpt ROps e env = q.
+Proof.
+  intros H. exact (build_scalar_is_eval (fun _ => []) 0 (fun _ => eq_refl) e q H).
+Qed.
